@@ -960,6 +960,9 @@ class Program:
         if selfcls is not None and last.startswith("Type") and last[4:] and self.find_classes(last[4:]):
             # TypeVar bound to a repo class, named Type<Class> by convention in this repo
             tv = self.lookup(mod, last, variant)
+            if tv and isinstance(tv[0], GlobalVar) and isinstance(tv[0].value, ast.Call) and (dotted(tv[0].value.func) or "").split(".")[-1] == "NewType" and len(tv[0].value.args) == 2:
+                # a NewType is its base type (TypeDataChunk = NewType("TypeDataChunk", NDArray)): not the class it is named after
+                return self.ann_to_type(tv[0].module, tv[0].value.args[1], variant, selfcls)
             if not tv or isinstance(tv[0], (GlobalVar, External)):
                 return tset(("cls", selfcls))
         out = set()
